@@ -32,8 +32,10 @@ ARMs == {[n |-> [x \in DOMAIN Shape |-> [cls |-> Shape[x], props |-> "props-" \o
 Init == \E arm \in ARMs :
           /\ path = <<[op |-> "LoadARM", arm |-> [n |-> arm.n, e |-> SetToSeq({[ends |-> SetToSeq(ed.ends), rel |-> ed.rel] : ed \in arm.e})]]>>
           /\ st = arm /\ lastop = [op |-> "Init"] /\ chg = FALSE
-Next == \E o \in {[op |-> "Partition"], [op |-> "PartitionAndRekey"]} :
-          LET r == Apply(st, o) IN st' = r.st /\ lastop' = o /\ chg' = (r.st # st) /\ path' = path
+GrowOp == [op |-> "Grow", x |-> "w9", nd |-> [cls |-> "NetworkNode", props |-> "props-w9", stitch |-> FALSE, deleg |-> Opt["split"]]]
+Next == \E o \in {[op |-> "Partition"], [op |-> "PartitionAndRekey"], [op |-> "PartitionAndRekeySame"], [op |-> "PartitionAndRekeyTwice"]}
+                  \cup (IF Len(path) = 1 THEN {GrowOp} ELSE {}) :
+          LET r == Apply(st, o) IN st' = r.st /\ lastop' = o /\ chg' = (r.st # st) /\ path' = IF r.st # st THEN Append(path, o) ELSE path
 Spec == Init /\ [][Next]_vars
 View == st
 LogStep == PrintT(ToJson([path |-> path, op |-> lastop', chg |-> chg']))
